@@ -576,7 +576,8 @@ def fem_model(desc):
             for k, tt in enumerate(times):
                 T[k, :] = dT * tt
             t.add_results("temperature", T)
-            t.set_pressure_bc(receiver.PressureBC(times, np.zeros(len(times))))
+            pr = (desc.get("p") or [0.0] * (len(tubes) + 1))[len(tubes)]
+            t.set_pressure_bc(receiver.PressureBC(times, pr * times))
             panel.add_tube(t)
             tubes.append(t)
         model.add_panel(panel)
@@ -593,6 +594,30 @@ def fem_material():
     from neml import elasticity, models
     emodel = elasticity.IsotropicLinearElasticModel(EMOD, "youngs", 0.3, "poissons")
     return models.SmallStrainElasticity(emodel, alpha=ALPHA)
+
+
+_PGROW = {}
+
+
+def pressure_growth(pr):
+    """axial growth of the free FEM tube under internal pressure `pr` alone (Poisson contraction of the discretised
+    wall), measured on the real tube solver driven directly (no spring, no system solver): an elastic tube is the
+    bar F(d) = k (d - d_free) with k = E A / H, so d_free = -F(0) / k"""
+    if pr == 0.0:
+        return 0.0
+    if pr not in _PGROW:
+        from srlife import receiver, structural
+        t = receiver.Tube(5.0, 0.5, FEM_H, 3, 4, 2)
+        t.make_1D(t.h / 2, 0.0)
+        times = np.array([0.0, 1.0])
+        t.set_times(times)
+        t.add_results("temperature", np.zeros((2, 3)))
+        t.set_pressure_bc(receiver.PressureBC(times, pr * times))
+        solver = structural.PythonTubeSolver(verbose=False)
+        st0 = solver.init_state(t, fem_material())
+        st1 = solver.solve(t, 1, st0, 0.0)
+        _PGROW[pr] = -float(st1.force) / (EMOD * FEM_AREA / FEM_H)
+    return _PGROW[pr]
 
 
 def fem_run(desc, keep=None):
@@ -630,7 +655,8 @@ def fem_predicate(desc, keep=None):
     # is the bar k = E A / H with free growth alpha dT H; its axial strain is d_top / H
     dd = dict(desc)
     dd["k"] = [EMOD * FEM_AREA / FEM_H] * len(desc["dT"])
-    dd["dth"] = [ALPHA * x * FEM_H for x in desc["dT"]]
+    prs = desc.get("p") or [0.0] * len(desc["dT"])
+    dd["dth"] = [ALPHA * x * FEM_H + pressure_growth(pr) for x, pr in zip(desc["dT"], prs)]
     d_dir, _, _, trecs = direct_solution(dd)
     for rec in trecs:
         want = d_dir[rec["top"]] / FEM_H
@@ -642,8 +668,9 @@ def fem_predicate(desc, keep=None):
             ezz, szz, spread = res[tid]
             if opt == ["str", "disconnect"]:
                 # alone: free thermal growth, uniform temperature => no axial stress
-                free = ALPHA * desc["dT"][tid] * desc.get("times", [0.0, 1.0])[-1]
-                if abs(ezz - free) > 1e-6 * abs(free) + 1e-12 or abs(szz) > 1e-6 * EMOD * abs(free) + 1e-9:
+                free = ALPHA * desc["dT"][tid] * desc.get("times", [0.0, 1.0])[-1] + pressure_growth(prs[tid]) / FEM_H
+                # (under pressure the discretised sigma_zz is uniform only to mesh accuracy: the strain carries the test)
+                if abs(ezz - free) > 1e-6 * abs(free) + 1e-12 or (prs[tid] == 0.0 and abs(szz) > 1e-6 * EMOD * abs(free) + 1e-9):
                     bad.append("FEM tube %d is disconnected but has axial strain %.9g (free growth %.9g), stress %.6g" % (tid, ezz, free, szz))
             if opt == ["str", "rigid"] and abs(ezz - res[first][0]) > 1e-7 * max(abs(ezz), 1e-12):
                 bad.append("FEM tubes %d and %d are rigidly connected but have axial strains %.9g / %.9g" % (first, tid, res[first][0], ezz))
@@ -808,14 +835,16 @@ def run(ctx):
     fem_descs = []
     for letters in itertools.product("drs", repeat=3):
         fd = {"recv": enc_of(letters[0], rng), "panels": [[enc_of(l, rng), 1] for l in letters[1:]],
-              "dT": [float(rng.uniform(50.0, 300.0)) for _ in range(2)], "times": [0.0, 1.0]}
+              "dT": [float(rng.uniform(50.0, 300.0)) for _ in range(2)], "times": [0.0, 1.0],
+              "p": [rng.choice([0.0, 4.0, 16.0]) for _ in range(2)]}
         fem_descs.append(fd)
     if not ctx.quick():
         for _ in range(20):
             P = rng.randint(1, 3)
             nts = [rng.randint(1, 2) for _ in range(P)]
             fem_descs.append({"recv": enc_of(rng.choice("drs"), rng), "panels": [[enc_of(rng.choice("drs"), rng), n] for n in nts],
-                              "dT": [float(rng.uniform(50.0, 300.0)) for _ in range(sum(nts))], "times": [0.0, 1.0]})
+                              "dT": [float(rng.uniform(50.0, 300.0)) for _ in range(sum(nts))], "times": [0.0, 1.0],
+                              "p": [rng.choice([0.0, 4.0, 16.0]) for _ in range(sum(nts))]})
     for fd in fem_descs:
         bad, _ = fem_predicate(fd)
         letters = opt_letter(fd["recv"]) + "".join(opt_letter(o) for o, _ in fd["panels"])
@@ -828,12 +857,13 @@ def run(ctx):
     for k in range(n_sweeps):
         nts = [rng.randint(1, 2) for _ in range(2)]
         dT = [float(rng.uniform(50.0, 300.0)) for _ in range(sum(nts))]
+        prs_k = [rng.choice([0.0, 8.0]) for _ in range(sum(nts))]
         keep = {}
         seq = [rng.choice(["rrr", "srs", "ssr", "drs", "rsd", "sss", "rdr"]) for _ in range(4)]
         hist = []
         for j, letters in enumerate(seq):
             fd = {"recv": enc_of(letters[0], rng), "panels": [[enc_of(l, rng), n] for l, n in zip(letters[1:], nts)],
-                  "dT": dT, "times": [0.0, 1.0]}
+                  "dT": dT, "times": [0.0, 1.0], "p": prs_k}
             fd["history"] = list(hist)       # the earlier solves of the same receiver object, for the replay
             hist.append({k_: v_ for k_, v_ in fd.items() if k_ != "history"})
             fem_descs.append(fd)
